@@ -531,7 +531,9 @@ func ResolveLocal(info *types.Info, scope ast.Node, e ast.Expr) ast.Expr {
 						if len(x.Values) == len(x.Names) {
 							n++
 							def = x.Values[i]
-						} else if len(x.Values) != 0 {
+						} else {
+							// declared without a value (or from a tuple): a later assignment may be conditional, the local is
+							// then not a name for that one expression
 							bad = true
 						}
 					}
